@@ -18,7 +18,7 @@ RULE = ('metamorphic: a well-formed base file (spec serializer, canonical '
         'Non-trivial = extension applied to a header that already has '
         'options; distinct = fingerprint of the extended bytes.')
 FLOOR = {'quick': 20000, 'thorough': 400000}
-REQUIRED_REACH = ['DiffXReader._read_header']
+REQUIRED_REACH = ['reader.py:']
 REQUIRED_COUNTERS = ['extensions_checked', 'extended:container',
                      'extended:content']
 ASSUMPTIONS = ['known option names: length, indent, encoding, line_endings, '
